@@ -330,6 +330,15 @@ func leanStr(s string) string {
 	return strconv.Quote(s) // Go quoting of printable ASCII is Lean-compatible
 }
 
+// leanVar renames Go identifiers that are Lean keywords (e.g. the loop variable `prefix`).
+func leanVar(s string) string {
+	switch s {
+	case "prefix", "infix", "postfix", "end", "from", "at", "fun", "open", "section", "namespace", "instance", "deriving", "macro", "syntax":
+		return s + "_"
+	}
+	return s
+}
+
 func leanIdent(s string) string {
 	return strings.ReplaceAll(s, "-", "_")
 }
@@ -365,7 +374,7 @@ func (c *predCtx) expr(e ast.Expr) string {
 			return "none"
 		}
 		if e.Name == c.recv || c.locals[e.Name] {
-			return e.Name
+			return leanVar(e.Name)
 		}
 		if _, ok := c.p.consts[e.Name]; ok {
 			return c.spec.ConstNS + "." + e.Name
@@ -638,7 +647,7 @@ func (c *predCtx) stmts(list []ast.Stmt, indent string) string {
 					cond := c.expr(is.Cond)
 					res := c.expr(rs.Results[0])
 					delete(c.locals, v)
-					return indent + "if (" + c.expr(s.X) + ").any (fun " + v + " => " + cond + ") then " + res + "\n" + indent + "else\n" + c.stmts(rest, indent+"  ")
+					return indent + "if (" + c.expr(s.X) + ").any (fun " + leanVar(v) + " => " + cond + ") then " + res + "\n" + indent + "else\n" + c.stmts(rest, indent+"  ")
 				}
 			}
 		}
@@ -1165,6 +1174,7 @@ func genModule(repo string, spec *Spec, outDir string) {
 		genLocals(repo, &spec.Locals[i], &cs)
 	}
 	genTables(repo, spec, &cs)
+	genExt(repo, spec.Module, &spec.ExtSpec, &cs)
 	for i := range spec.Preds {
 		genPred(repo, &spec.Preds[i], &cs)
 	}
